@@ -22,7 +22,13 @@ impl Formatter {
     /// Format a program and return the formatted source
     pub fn format(mut self, program: &Program) -> String {
         self.format_program(program);
-        self.writer.finish()
+        // A file ends in exactly one newline (block expressions such as `match` end their own last line, and the
+        // enclosing statement adds another).
+        let mut out = self.writer.finish();
+        while out.ends_with("\n\n") {
+            out.pop();
+        }
+        out
     }
 
     fn write_visibility(&mut self, visibility: crate::frontend::ast::Visibility) {
